@@ -624,6 +624,10 @@ func (cl *w1SimClient) runOp(op w1Op) bool {
 		if op.Tf {
 			req.Tf = &protocol.FilterNode{Key: "c", Cmp: "eq", Val: "1"}
 		}
+		if op.Delta {
+			req.Delta = "fossil"
+		}
+		cl.nextTf, cl.nextDelta = op.Tf, op.Delta
 		id := cl.id()
 		ok := cl.send(&protocol.Command{Id: id, Subscribe: req}, "subscribe", op.Ch)
 		if ok && (cl.w.prop == "C02" || cl.w.prop == "C03") {
@@ -1177,8 +1181,11 @@ func (w *w1World) publish(ch string) {
 		// similar, longer payloads so that fossil deltas are real deltas; a head block that
 		// cycles among a few values (a delta computed against the wrong base then copies
 		// the wrong head) ...
-		head := strings.Repeat(string(rune('A'+w.markerSeq%5)), 24)
-		data = fmt.Sprintf(`{"m":"%d","head":"%s","pad":"%s","tail":%d}`, w.markerSeq, head, strings.Repeat("abcdefgh", 8), w.markerSeq%7)
+		// blocks that repeat with periods 2, 3 and 5: a delta computed against an older
+		// base than the one the client holds copies a block that is equal in the new and the
+		// stale payload but different in the held one, so applying it gives wrong bytes
+		blk := func(period int) string { return strings.Repeat(string(rune('A'+w.markerSeq%period)), 24) }
+		data = fmt.Sprintf(`{"m":"%d","p2":"%s","p3":"%s","p5":"%s","pad":"%s","tail":%d}`, w.markerSeq, blk(2), blk(3), blk(5), strings.Repeat("abcdefgh", 8), w.markerSeq%7)
 		switch w.s.Intn(6) {
 		case 4:
 			// ... sometimes a payload that shares nothing with its predecessor: the
@@ -1668,7 +1675,7 @@ func w1Gen(c *simrt.Choice, prop, tier string) any {
 			switch c.Pick(weights...) {
 			case 0:
 				op = w1Op{K: "sub", Ch: pickCh(), Recover: c.Intn(2) == 0}
-				if (prop == "C01" || prop == "C38") && c.Intn(3) == 0 {
+				if (prop == "C01" || prop == "C38" || prop == "C14") && c.Intn(3) == 0 {
 					// recover from an explicit older position while publishers are active
 					op = w1Op{K: "subrec", Ch: pickCh(), Back: c.Intn(7), Ep: "cur"}
 				}
